@@ -24,7 +24,7 @@ use std::{
 pub static DEF: PropDef = PropDef {
     id: "C06",
     level: "exploration",
-    total: |t| t.pick(64, 1600),
+    total: |t| t.pick(1024, 25600),
     run,
     rule: "2..8 machines on one network, 1..3 distinct claimed addresses each, resolver subnet configuration with masks 0/8/24/30/32 and a gateway that exists or not, 1..20 resolutions started at random virtual times (same or different targets, claimed or unclaimed, on- or off-subnet), latency 0..30 ms, loss plans over ARP frames: none / first k requests / first k replies / every n-th frame / everything. Run on the paused clock. Every Arp::resolve return value and completion time is checked against the owner's tap address computed from Pci::mac_addresses, the harness's own subnet arithmetic and the ARP frames the H4 hook saw delivered. Non-trivial = scenario with >=1 retry observed (a second request for the same target by the same resolver) and >=1 gateway substitution; distinct by scenario hash.",
     assumptions: &[
